@@ -251,6 +251,45 @@ def check_C19(tier):
             elif got != set(exp["files"]):
                 chk.violation("%s: partial run to %s: outputs %s, expected %s" % (inst["name"], inst["targets"], sorted(got)[:8], sorted(exp["files"])[:8]), replay)
         chk.nontrivial.add("component-in-partial-run:" + inst["name"])
+    # FileSplitter and Concatenator as process kinds of Flow.tla inside workflows: FlowTrace accepts the recorded runs, the parts of every file
+    # concatenate back to it, the concatenated file holds every input once in arrival order
+    inflow = [zoo.ZSPL(n=3, buf=1), zoo.ZSPL(n=4, lines=2), zoo.ZSPL(n=0), zoo.ZCAT(n=4, buf=1), zoo.ZCAT(n=3, two=True)]
+    def flowrun(inst):
+        exp = fc.expected(inst)
+        rrs = fc.real_runs(inst, [dict(env={}, bufsize=inst["bufsize"], timeout=25), dict(env={"VERIF_JITTER": "13"}, bufsize=1, timeout=25)])
+        good = [r for r in rrs if not (r.timeout or r.deadlock) and r.rc == 0 and r.completed]
+        return inst, exp, rrs, (fc.validate_traces(inst, exp, good)[0] if good else None)
+    for inst, exp, rrs, det in pmap(flowrun, inflow, workers=5):
+        label = "%s (%d source files)" % (inst["name"], len(inst["procs"][0]["items"]))
+        for rr in rrs:
+            chk.evaluations += 1
+            replay = dict(instance=inst, variant=rr.variant)
+            if rr.timeout or rr.deadlock or rr.rc != 0 or not rr.completed:
+                chk.violation("%s did not complete: rc=%s %s" % (label, rr.rc, rr.stderr[-160:].replace("\n", " | ")), replay); continue
+            got, want = set(final_ids(rr.snapshot)), set(exp["files"]) | set(exp.get("catfiles", []))
+            if got != want:
+                chk.violation("%s: outputs %s, expected %s" % (label, sorted(got)[:8], sorted(want)[:8]), replay)
+            if inst["name"] == "ZSPL":
+                for it in inst["procs"][0]["items"]:
+                    # what the consumer of each part read (its output = BEGIN line + the part + END line), in part order
+                    parts = sorted((p for p in rr.snapshot if re.match(r"o/b\.out_%s\.txt\.split_\d+\.txt$" % re.escape(it), p)), key=lambda p: int(p[:-4].rsplit("_", 1)[1]))
+                    back = "".join("".join((rr.snapshot[p].get("text") or "").splitlines(True)[1:-1]) for p in parts)
+                    if back != "SRC %s\n" % it:
+                        chk.violation("FileSplitter inside a workflow: the parts of in/%s.txt, as read by their consumers %s, concatenate to %r" % (it, parts, back[:80]), replay)
+            if inst["name"] == "ZCAT":
+                order = [ev["path"] for ev in rr.events if ev["ev"] == "send.begin" and ev["to"] == "cc.in"]
+                wantc = "".join((rr.snapshot.get(p, {}).get("text") or "") + "\n" for p in order)      # the component ends every input with a newline of its own
+                if (rr.snapshot.get("o/all.txt", {}).get("text") or "") != wantc:
+                    chk.violation("Concatenator inside a workflow: o/all.txt is not every input's content once in arrival order %s" % order, replay)
+        if det is not None:
+            if det.error: chk.undecided.append("FlowTrace on %s: %s" % (label, det.error[-200:]))
+            else:
+                chk.add_tlc(det)
+                if det.rejected:
+                    print("DRIFT: FlowTrace rejected a recorded run of %s at line %d: %s" % (label, det.rejected[0], det.rejected[1][:200]), flush=True)
+                    chk.extra["drift"] = chk.extra.get("drift", 0) + 1
+                elif det.ok: chk.traces += len(rrs)
+        chk.nontrivial.add("component-as-flow-kind:%s:%d" % (inst["name"], len(inst["procs"][0]["items"])))
     chk.sample(dict(kind="component-cases", exported_by_tlc=len(cases), replayed=len(jobs) + len(simple), examples=[j[1] for j in jobs[:3]]))
     chk.extra["exhaustive"] = True
     return chk.finish()
